@@ -360,6 +360,55 @@ def deep_defs(ctx, f: FuncInfo, e: ast.AST, depth: int = 2) -> list[tuple[FuncIn
     return out
 
 
+def _none_default_params(f: FuncInfo) -> set[str]:
+    a_ = f.node.args
+    allp = a_.posonlyargs + a_.args
+    return {x.arg for x, dv in zip(allp[len(allp) - len(a_.defaults):], a_.defaults) if isinstance(dv, ast.Constant) and dv.value is None} | \
+        {x.arg for x, dv in zip(a_.kwonlyargs, a_.kw_defaults) if isinstance(dv, ast.Constant) and dv.value is None}
+
+
+def injected_default(f: FuncInfo, e: ast.AST | None) -> ast.AST | None:
+    """'Optional dependency' idiom: what a name stands for in the default configuration.
+      x = D if p is None else p   /   x = p if p is not None else D   /   x = p or D        -> x stands for D
+      if p is None: p = D   (the only assignment of the parameter p)                        -> p stands for D
+    where p is a parameter whose default is None. Otherwise e itself. (What callers inject is theirs to answer for.)"""
+    if not isinstance(e, ast.Name) or isinstance(f.node, ast.Lambda):
+        return e
+    none_default = _none_default_params(f)
+    if e.id in none_default:
+        assigns = [(a, a.value) for a in ast.walk(f.node) if isinstance(a, ast.Assign) and any(isinstance(t, ast.Name) and t.id == e.id for t in a.targets)]
+        if len(assigns) == 1:
+            for i in ast.walk(f.node):
+                if isinstance(i, ast.If) and not i.orelse and assigns[0][0] in i.body and isinstance(i.test, ast.Compare) and isinstance(i.test.ops[0], ast.Is) \
+                        and dotted(i.test.left) == e.id and is_const(i.test.comparators[0], None):
+                    return assigns[0][1]
+        return e
+    defs = local_defs(f, e.id)
+    if len(defs) != 1:
+        return e
+    d = defs[0]
+    t = negate_aware_ifexp(d)
+    if t is not None and isinstance(t[0], ast.Compare) and isinstance(t[0].ops[0], ast.Is) and is_const(t[0].comparators[0], None) and dotted(t[0].left) in none_default \
+            and dotted(t[2]) == dotted(t[0].left):
+        return t[1]
+    if isinstance(d, ast.BoolOp) and isinstance(d.op, ast.Or) and len(d.values) == 2 and dotted(d.values[0]) in none_default:
+        return d.values[1]
+    return e
+
+
+def expand_helper_calls(ctx, f: FuncInfo, e: ast.AST, depth: int = 2) -> ast.AST:
+    """A copy of e in which every call of a small pure private helper (see call_as_expr) is replaced by the expression it returns."""
+    import copy
+
+    class T(ast.NodeTransformer):
+        def visit_Call(self, node):
+            self.generic_visit(node)
+            r = call_as_expr(ctx, f, node, depth)
+            return r if r is not node else node
+
+    return T().visit(copy.deepcopy(e))
+
+
 def emptiness_test(e: ast.AST) -> ast.AST | None:
     """X if e tests that the collection X is empty: `not X`, `len(X) == 0`, `len(X) < 1`, `not len(X)`; else None."""
     if isinstance(e, ast.UnaryOp) and isinstance(e.op, ast.Not):
